@@ -56,9 +56,17 @@ def allCfgs : List Cfg :=
   [false, true].flatMap fun t => [false, true].flatMap fun r => [false, true].flatMap fun u =>
     [false, true].map fun g => { tls := t, chroot := r, setuid := u, setgid := g }
 
-/-- the complete behaviour table: every configuration, no fault and every fault position -/
-def table : List Row :=
-  allCfgs.flatMap fun c => run c none :: (List.range (plan c).length).map fun i => run c (some i)
+/-- failure classes the executed table injects at every position (`harness/c19_trace.py: CLASSES`):
+    a private `OSError` subclass, `PermissionError`, `FileNotFoundError`, `KeyError`, `ssl.SSLError`,
+    `RuntimeError`.  The model's behaviour does not depend on the class: nothing in the start-up
+    path may catch any of them. -/
+def nClasses : Nat := 6
+
+/-- the complete behaviour table: every configuration, no fault and every (fault class, fault position);
+    each row is tagged with its fault class (0 for the fault-free row) -/
+def table : List (Nat × Row) :=
+  allCfgs.flatMap fun c => (0, run c none) ::
+    (List.range nClasses).flatMap fun k => (List.range (plan c).length).map fun i => (k, run c (some i))
 
 /-- `a` occurs before every occurrence of `b` (vacuous when `b` does not occur) -/
 def before (a b : Call) : List Call → Bool
